@@ -263,6 +263,70 @@ pub fn craft(w: &Rc<World>, _node: usize, kind: &str, spoof_p: Option<u32>, a: i
             // arbitrary submessage id a, flags b, body of c bytes
             m.extend(submessage(a as u8, b as u8, &vec![d as u8; (c as usize).min(3000)]));
         }
+        "info" => {
+            // well-formed interpreter submessages (INFO_TS, INFO_SRC, INFO_DST, INFO_REPLY, INFO_REPLY_IP4, PAD) with
+            // arbitrary content, followed by a HEARTBEAT so that the receiver state they set is used
+            let loc = |kind: i32, port: u32, last: u8| -> Vec<u8> {
+                let mut v = kind.to_le_bytes().to_vec();
+                v.extend(port.to_le_bytes());
+                v.extend([0u8; 15]);
+                v.push(last);
+                v
+            };
+            match a.rem_euclid(7) {
+                0 => {
+                    // INFO_REPLY: unicast list of b%3 locators, optional multicast list
+                    let mut body = ((b.rem_euclid(3)) as u32).to_le_bytes().to_vec();
+                    for i in 0..b.rem_euclid(3) {
+                        body.extend(loc(c as i32, d as u32, i as u8));
+                    }
+                    let multicast = c & 1 == 1;
+                    if multicast {
+                        body.extend(1u32.to_le_bytes());
+                        body.extend(loc(1, 7400, 239));
+                    }
+                    m.extend(submessage(0x0f, if multicast { 0x03 } else { 0x01 }, &body));
+                }
+                1 => {
+                    // INFO_REPLY_IP4
+                    let mut body = (c as u32).to_le_bytes().to_vec();
+                    body.extend((d as u32).to_le_bytes());
+                    m.extend(submessage(0x0d, 0x01, &body));
+                }
+                2 => {
+                    // INFO_SRC: protocol version, vendor and prefix from the arguments
+                    let mut body = vec![0u8; 4];
+                    body.extend([(b & 0xff) as u8, (c & 0xff) as u8, 1, 20]);
+                    body.extend(if c & 1 == 0 { prefix } else { crate::hostile::foreign_prefix(97) });
+                    m.extend(submessage(0x0c, 0x01, &body));
+                }
+                3 => {
+                    // INFO_TS with extreme time / invalidate flag
+                    if b & 1 == 1 {
+                        m.extend(submessage(0x09, 0x03, &[]));
+                    } else {
+                        let mut body = (c as i32).to_le_bytes().to_vec();
+                        body.extend((d as u32).to_le_bytes());
+                        m.extend(submessage(0x09, 0x01, &body));
+                    }
+                }
+                4 => {
+                    let mut body = prefix.to_vec();
+                    if b & 1 == 1 {
+                        body = crate::hostile::foreign_prefix(96).to_vec();
+                    }
+                    m.extend(submessage(0x0e, 0x01, &body));
+                }
+                5 => m.extend(submessage(0x01, 0x01, &vec![0u8; (c.rem_euclid(64)) as usize])),
+                _ => m.extend(submessage((b & 0xff) as u8, 0x01, &vec![0u8; (c.rem_euclid(64)) as usize * 4])),
+            }
+            let mut hb = reader.to_vec();
+            hb.extend(writer);
+            hb.extend(sn_bytes(1));
+            hb.extend(sn_bytes(c.rem_euclid(100)));
+            hb.extend((d as u32).to_le_bytes());
+            m.extend(submessage(0x07, 0x01, &hb));
+        }
         "plist" => {
             // a discovery DATA whose parameter list has a parameter with a hostile length / string length
             let mut pl: Vec<u8> = vec![0x00, 0x03, 0x00, 0x00];
